@@ -253,6 +253,18 @@ def check_categorical(kind):
                         fails.append((case, f"returned state {st} violates heralds-removed / post-selection / min-detection"))
     finally:
         mod.np = real_np
+    # threshold detectors cannot observe a herald of two photons: no output can satisfy it, so nothing may be returned (the Sampler refuses)
+    c2 = lw.Unitary(U(4, 6))
+    c2.herald(2, 3, 0)
+    n += 1
+    try:
+        if kind == "sampler":
+            r2 = emulator.Sampler(c2, lw.State([1, 1, 0]), detector=emulator.Detector(photon_counting=False)).sample_N_outputs(20, seed=1)
+        else:
+            r2 = emulator.QuickSampler(c2, lw.State([1, 1, 0]), photon_counting=False).sample_N_outputs(20, seed=1)
+        fails.append((dict(setup="U4+h(2,3,0) in=[1,1,0]", photon_counting=False), f"returned {sum(r2.values())} samples although a click detector can never report the two herald photons"))
+    except Exception:  # noqa: BLE001
+        pass
     cls = "Sampler" if kind == "sampler" else "QuickSampler"
     f = "sampler.py" if kind == "sampler" else "quick_sampler.py"
     return _obl(f"lightworks/emulator/simulation/{f}:{cls}.sample_N_outputs#bnd.categorical-law", n, fails,
